@@ -4,7 +4,7 @@
 (* real, unmerged history).                                                    *)
 EXTENDS SrtpGatePc, Json
 
-EdgeRec == [ mode |-> mode, pre |-> hist, act |-> last'.op,
+EdgeRec == [ mode |-> mode, role |-> role, crypto |-> crypto, pre |-> hist, act |-> last'.op,
              exp |-> << last'.w, last'.d, last'.aw, last'.ad, last'.dx >> ]
 EmitEdge == PrintT(<<"EDGE", ToJson(EdgeRec)>>)
 NoEmit == TRUE
